@@ -8,7 +8,9 @@ package c05
 // element (0 <= park <= k; park = 0: the lock is held, nothing has been written yet).  While it
 // is parked the second call (any entry point) is started and the harness waits until that
 // goroutine is blocked in sync.(*Mutex).Lock.  Then the holder goes on and its reader fails
-// after k tokens (mode `fail`, 0 < k < len) or delivers all of them (mode `finish`, k = len).  A call that asked "is the stream inside an unfinished
+// after k tokens (mode `fail`, 0 < k < len) or delivers all of them (mode `finish`, k = len).
+// Mode `twfail`: the holder is a token writer that writes k tokens of the element and is then
+// closed (an abandoned handle: its Close succeeds, the stream is left inside the element).  A call that asked "is the stream inside an unfinished
 // element?" BEFORE it queued acts on a stale answer: after `fail` it writes its element inside
 // the unfinished one and reports success, during `finish` it is refused although nothing is
 // broken.  The model (SendGuard LTS, guard under the lock) says: fail -> refused, nothing
@@ -98,10 +100,10 @@ func behindCall(entry string, next []xml.Token) (call, bool) {
 
 func (c *ctxT) behind(cfg cfgT, mode string, park, k int, toks []xml.Token, cl call) {
 	r := c.r
-	if mode != "fail" {
+	if mode == "finish" {
 		k = len(toks)
 	}
-	if c.stalls >= 3 || k <= 0 || (mode == "fail" && k >= len(toks)) || park < 0 || park > k || park >= len(toks) {
+	if c.stalls >= 3 || k <= 0 || (mode != "finish" && k >= len(toks)) || park < 0 || park > k || park >= len(toks) {
 		return
 	}
 	startF := "-"
@@ -114,13 +116,35 @@ func (c *ctxT) behind(cfg cfgT, mode string, park, k int, toks []xml.Token, cl c
 	if err != nil {
 		return
 	}
-	pr := &parkReader{t: toks, k: k, park: park, fail: mode == "fail", reached: make(chan struct{}, 1), gate: make(chan struct{})}
+	pr := &parkReader{t: toks, k: k, park: park, fail: mode != "finish", reached: make(chan struct{}, 1), gate: make(chan struct{})}
 	var err1 error
 	var p1 string
 	done1 := make(chan struct{})
 	go func() {
 		defer close(done1)
-		p1 = common.Recover(func() { err1 = rs.S.Send(context.Background(), pr) })
+		p1 = common.Recover(func() {
+			if mode != "twfail" {
+				err1 = rs.S.Send(context.Background(), pr)
+				return
+			}
+			// a token writer that is abandoned (closed) after k tokens of its element
+			w := rs.S.TokenWriter()
+			for i := 0; i <= k; i++ {
+				if i == park {
+					pr.reached <- struct{}{}
+					<-pr.gate
+				}
+				if i == k {
+					break
+				}
+				if err1 = w.EncodeToken(xml.CopyToken(toks[i])); err1 != nil {
+					break
+				}
+			}
+			if e := w.Close(); err1 == nil {
+				err1 = e
+			}
+		})
 	}()
 	select {
 	case <-pr.reached:
@@ -203,7 +227,7 @@ wait:
 			same, _ := sameElement(els[len(els)-1], exp)
 			okEl = same
 		}
-		if okEl && st1 == "ok" {
+		if okEl && mode == "finish" {
 			exp1, e1 := expected(cfg.ns, cfg.from, toks)
 			okEl = len(els) == 2 && e1 == nil
 			if okEl {
@@ -212,7 +236,7 @@ wait:
 		}
 		if !okEl {
 			what := "abandoned after"
-			if st1 == "ok" {
+			if mode == "finish" {
 				what = "completed,"
 			}
 			r.Fail("next-after-failure", "behind/"+mode+"/"+cl.entry, lines, fmt.Sprintf("a %s call queued for the output lock while a Send was parked after %d tokens of its element, which it then %s %d tokens (first call: %s); it returned nil but its element is not a complete top-level element on the wire: %q", cl.entry, park, what, k, st1, clip(wire)))
@@ -236,6 +260,7 @@ func (c *ctxT) behindCorpus(cfg cfgT) {
 					continue
 				}
 				c.behind(cfg, "fail", park, k, msg, cl)
+				c.behind(cfg, "twfail", park, k, msg, cl)
 			}
 			c.behind(cfg, "finish", k, len(msg), msg, cl)
 		}
